@@ -46,10 +46,18 @@ class RandomVectorizedStrategy(vb.VectorizedStrategy[None]):
     categorical_sizes = []
     for spec in converter.output_specs.categorical:
       categorical_sizes.append(spec.bounds[1])
+    # Padded categorical features only take the value 0 (the optimizer masks
+    # padded dimensions anyway).
+    categorical_sizes += [1] * (
+        n_feature_dimensions_with_padding.categorical - len(categorical_sizes)
+    )
 
     self._suggestion_batch_size = suggestion_batch_size
     self.n_feature_dimensions_with_padding = n_feature_dimensions_with_padding
-    self.n_feature_dimensions = n_feature_dimensions_with_padding
+    self.n_feature_dimensions = types.ContinuousAndCategorical(
+        len(converter.output_specs.continuous),
+        len(converter.output_specs.categorical),
+    )
     self.dtype = types.ContinuousAndCategorical(jnp.float64, types.INT_DTYPE)
 
     self._categorical_logits = None
